@@ -1,6 +1,7 @@
 import NodisVerif.Model.Block
 import NodisVerif.Proofs.BlockTrace
 import NodisVerif.Proofs.BlockProgPush
+import NodisVerif.Proofs.BlockProgHook
 /-
   C18 — BLPOP/BRPOP: return immediately when a listed key has an element (first key in argument
   order), otherwise wait; a push to a listed key reaches the waiter (no missed wake-up), timeout 0
@@ -692,6 +693,26 @@ theorem blockprog_registered_while_waiting {σ : Sys} {es : List Ev} (h : Reach 
     cases hp : (σ.thr t).pc <;> simp [hp, isBody] at hb ⊢
   rw [this] at hC
   exact List.count_pos_iff.1 (by rw [hC]; exact List.count_pos_iff.2 hk)
+
+/-! ### the order of the HOOK CALLS (what a recorded trace contains)
+
+  `Model/BlockProgHook.lean`: the same program with the two hooks that are not atomic with the channel operation they
+  report as steps of their own - `bp-notify` BEFORE the send, `bp-wake` AFTER the receive. A run `HReach h hs es` has two
+  event sequences: `es` in the order of the operations, `hs` in the order of the hook calls. -/
+
+/-- THE HOOK-ORDER REFINEMENT.  For every hook-level run: the hook-call sequence `hs` is a run of `Block.stepLoose` -
+    the relation the recorded traces are validated with -, the operation sequence `es` is a run of the program model and
+    hence of the precise `Block.step`.  The only event for which `hs` needs the loose rule is `wake` (the proof uses
+    `step` for every other event: `lstep_agree`, `stepLoose_of_not_wake`); that it is needed is the example below. -/
+theorem blockprog_hook_order_refines_loose {h : HSys} {hs es : List Ev} (hr : HReach h hs es) :
+    (∃ hb, runAllLoose [] hs = some hb) ∧ Reach h.σ es ∧ ∃ bs, runAll [] es = some bs ∧ Inv h.σ bs := by
+  obtain ⟨⟨bs, hb, _, hl, _⟩, _, _⟩ := hreach_inv hr
+  exact ⟨⟨hb, hl⟩, hreach_reach hr, blockprog_refines_block (hreach_reach hr)⟩
+
+/-- the hook-level semantics covers every run of the program model (hooks called right next to their operations: both
+    orders coincide), so the theorem above is not vacuous -/
+theorem blockprog_run_is_hook_run {σ : Sys} {es : List Ev} (h : Reach σ es) :
+    HReach ⟨σ, [], fun _ => false⟩ es es := reach_lifts h
 
 /-! ### scenarios of the program model (non-vacuity: the hypotheses above are met by real schedules) -/
 
